@@ -49,7 +49,10 @@ theorem W_le {m n : Nat} (h : m ≤ n) : W m ≤ W n := Nat.le_of_dvd (W_pos n) 
 /-- storage width: the least multiple of `bits` that is ≥ k -/
 theorem ndigits_spec (k : Nat) : k ≤ bits * ndigits k ∧ bits * ndigits k < k + bits := by
   simp only [ndigits, bits_eq]
-  split <;> rename_i h <;> simp at h <;> omega
+  -- robust against the equivalent spelling `(k + bits - 1) / bits` of the digit count
+  first
+    | omega
+    | (split <;> rename_i h <;> simp at h <;> omega)
 
 theorem ndigits_pos {k : Nat} (h : 0 < k) : 0 < ndigits k := by
   have := ndigits_spec k
@@ -59,8 +62,10 @@ theorem ndigits_pos {k : Nat} (h : 0 < k) : 0 < ndigits k := by
 /-- the double-width temporary of `operator*=` has room for every `digit[i+m]` written (i, m < n) -/
 theorem ndigits_double (k : Nat) : 2 * ndigits k - 1 ≤ ndigits (2 * k) ∧ ndigits k ≤ ndigits (2 * k) := by
   simp only [ndigits, bits_eq]
-  repeat' split
-  all_goals (rename_i h1 h2; simp at h1 h2; omega)
+  first
+    | omega
+    | (repeat' split
+       all_goals (rename_i h1 h2; simp at h1 h2; omega))
 
 /-! ### masks as arithmetic -/
 
